@@ -1,18 +1,22 @@
 #!/bin/sh
-# usage: tools/eval_seed.sh <PROP> <name>   (patch+demo in /tmp/wt-out/<name>, worktree /tmp/wt/<name>)
-PROP=$1; NAME=$2; WT=/tmp/wt/$NAME; OUT=/tmp/wt-out/$NAME
-cd $WT || exit 2
-echo "--- worktree diff stat"; git diff --stat | tail -3
-echo "--- demo with patch"; (PYTHONPATH=$WT timeout 600 /venv/bin/python $OUT/demo.py >/tmp/wt-out/$NAME.demo_patched.log 2>&1; echo "exit=$?")
-git stash -q
-echo "--- demo clean"; (PYTHONPATH=$WT timeout 600 /venv/bin/python $OUT/demo.py >/tmp/wt-out/$NAME.demo_clean.log 2>&1; echo "exit=$?")
-git stash pop -q
+# usage: tools/eval_seed.sh <name>   (patch.diff + demo.py in /tmp/wt-out/<name>)
+# Confirms a seeded change in a fresh scratch worktree (no git stash: the stash is shared between
+# worktrees), then applies it to /repo, runs every quick check and reverts /repo.
+NAME=$1; OUT=/tmp/wt-out/$NAME; WT=/tmp/ev/$NAME
+mkdir -p /tmp/ev
+git -C /repo worktree add -q --detach $WT HEAD || exit 2
+cd $WT
+echo "--- demo clean"; (PYTHONPATH=$WT timeout 900 /venv/bin/python $OUT/demo.py >$OUT/eval_demo_clean.log 2>&1; echo "exit=$?")
+git apply $OUT/patch.diff || { echo "PATCH DOES NOT APPLY"; cd /; git -C /repo worktree remove --force $WT; exit 3; }
+git diff --stat | tail -1
+echo "--- demo with patch"; (PYTHONPATH=$WT timeout 900 /venv/bin/python $OUT/demo.py >$OUT/eval_demo_patched.log 2>&1; echo "exit=$?")
 echo "--- tests with patch"; /venv/bin/python -m pytest -q -p no:cacheprovider --timeout=900 --continue-on-collection-errors 2>&1 | tail -1
+cd /; git -C /repo worktree remove --force $WT
 echo "--- apply to /repo and run checks"
-cd /repo && git status --short | head -3
-git -C /repo apply $OUT/patch.diff || { echo "PATCH DOES NOT APPLY"; exit 3; }
+git -C /repo status --short | head -3
+git -C /repo apply $OUT/patch.diff || { echo "PATCH DOES NOT APPLY TO /repo"; exit 3; }
 cd /verif
-for p in C03 C04 C05 C06 C07 C09 C10 C11 C12 C13 C14 C15 C16 C17 C18 C19 C20; do
+for p in $(/venv/bin/python -c "import json;print(' '.join(c['property_id'] for c in json.load(open('/verif/MANIFEST.json'))['checks']))"); do
   out=$(./check $p --tier quick 2>&1); code=$?
   if [ $code -ne 0 ]; then echo "[$p exit=$code]"; echo "$out" | grep -E "VIOLATION|^  R|ANALYSIS-ERROR" | cut -c1-330 | head -8; fi
 done
